@@ -13,6 +13,11 @@
 (* Tokens are numbers: 1 = issued, 2.. = renewals.  A side's key slot(s):    *)
 (*   cur  = token it secures with and verifies against                       *)
 (*   prev = token it still verifies against (corrected design only)          *)
+(* Keys are derived from the nonces of the OpenSecureChannel exchange: a key *)
+(* is identified by its token AND by the client nonce it was derived from    *)
+(* (nonce ids: the id of the renew request that carried it, 0 for the issue).*)
+(*   gen  = the local nonce the client channel holds (the last one made)     *)
+(*   n/pn = nonce of the keys of cur / prev                                  *)
 (* Dev switches model the pinned tree.                                       *)
 (***************************************************************************)
 EXTENDS Integers, Sequences, FiniteSets, TLC
@@ -33,8 +38,8 @@ VARIABLES
 vars == <<c, s, c2s, s2c, respq, nSent, nRenew, issued, evt>>
 
 Init ==
-  /\ c = [cur |-> 1, prev |-> 0, pend |-> 0, got |-> 0]
-  /\ s = [cur |-> 1, prev |-> 0, next |-> 0]
+  /\ c = [cur |-> 1, prev |-> 0, pend |-> 0, got |-> 0, gen |-> 0, n |-> 0, pn |-> 0]
+  /\ s = [cur |-> 1, prev |-> 0, next |-> 0, n |-> 0, pn |-> 0, nn |-> 0]
   /\ c2s = <<>> /\ s2c = <<>> /\ respq = <<>>
   /\ nSent = 0 /\ nRenew = 0 /\ issued = {1}
   /\ evt = [ev |-> "Init"]
@@ -44,42 +49,49 @@ E(ev, side, m, acc) == [ev |-> ev, side |-> side, k |-> m.k, id |-> m.id, tok |-
 \* --- client caller task ---------------------------------------------------
 ClientSend ==
   /\ nSent < MaxMsgs
-  /\ LET m == [k |-> "MSG", id |-> nSent + 1, tok |-> c.cur] IN
+  /\ LET m == [k |-> "MSG", id |-> nSent + 1, tok |-> c.cur, n |-> c.n] IN
      /\ c2s' = Append(c2s, m) /\ nSent' = nSent + 1
      /\ evt' = E("Secure", "client", m, TRUE)
   /\ UNCHANGED <<c, s, s2c, respq, nRenew, issued>>
 
 ClientBeginRenew ==
   /\ nRenew < MaxRenews /\ c.pend = 0 /\ c.got = 0
-  /\ LET m == [k |-> "OPNQ", id |-> 100 + nRenew + 1, tok |-> 0] IN
-     /\ c2s' = Append(c2s, m) /\ c' = [c EXCEPT !.pend = nRenew + 2] /\ nRenew' = nRenew + 1
+  /\ LET m == [k |-> "OPNQ", id |-> 100 + nRenew + 1, tok |-> 0, n |-> 100 + nRenew + 1] IN
+     /\ c2s' = Append(c2s, m) /\ c' = [c EXCEPT !.pend = nRenew + 2, !.gen = m.n] /\ nRenew' = nRenew + 1
      /\ evt' = E("BeginRenew", "client", m, TRUE)
   /\ UNCHANGED <<s, s2c, respq, nSent, issued>>
 
 \* end_issue_or_renew_secure_channel, run by the caller task after the transport task completed the request
 ClientEndRenew ==
   /\ c.got # 0
-  /\ c' = IF DevSingleKeySlot THEN [cur |-> c.got, prev |-> 0, pend |-> 0, got |-> 0]
+  \* the keys are derived from the local nonce the channel holds at this moment
+  /\ c' = IF DevSingleKeySlot THEN [cur |-> c.got, prev |-> 0, pend |-> 0, got |-> 0, gen |-> c.gen, n |-> c.gen, pn |-> 0]
           ELSE [c EXCEPT !.pend = 0, !.got = 0]                    \* corrected: the transport task already switched
   /\ evt' = E("EndRenew", "client", [k |-> "OPNR", id |-> 0, tok |-> c.got], TRUE)
   /\ UNCHANGED <<s, c2s, s2c, respq, nSent, nRenew, issued>>
 
 \* --- server reader task ----------------------------------------------------
-ServerAccepts(m) == m.k = "MSG" /\ (m.tok = s.cur \/ (~DevSingleKeySlot /\ m.tok \in {s.prev, s.next} /\ m.tok # 0))
+ServerAccepts(m) ==
+  /\ m.k = "MSG"
+  /\ \/ (m.tok = s.cur /\ m.n = s.n)
+     \/ (~DevSingleKeySlot /\ m.tok # 0 /\ m.tok = s.prev /\ m.n = s.pn)
+     \/ (~DevSingleKeySlot /\ m.tok # 0 /\ m.tok = s.next /\ m.n = s.nn)
 ServerRecv ==
   /\ c2s # <<>>
   /\ LET m == Head(c2s) IN
      /\ c2s' = Tail(c2s)
      /\ IF m.k = "OPNQ"
         THEN LET t == s.cur + (IF s.next # 0 THEN 2 ELSE 1) IN
-             /\ s' = IF DevSingleKeySlot THEN [cur |-> t, prev |-> 0, next |-> 0] ELSE [s EXCEPT !.next = t]
+             /\ s' = IF DevSingleKeySlot THEN [cur |-> t, prev |-> 0, next |-> 0, n |-> m.n, pn |-> 0, nn |-> 0]
+                     ELSE [s EXCEPT !.next = t, !.nn = m.n]
              /\ issued' = issued \cup {t}
-             /\ respq' = Append(respq, [k |-> "OPNR", id |-> m.id, tok |-> t])
+             /\ respq' = Append(respq, [k |-> "OPNR", id |-> m.id, tok |-> t, n |-> m.n])
              /\ evt' = E("Deliver", "server", m, TRUE)
         ELSE LET acc == ServerAccepts(m) IN
              \* corrected design: the first message under the new token makes it current
-             /\ s' = IF acc /\ ~DevSingleKeySlot /\ m.tok = s.next THEN [cur |-> s.next, prev |-> s.cur, next |-> 0] ELSE s
-             /\ respq' = IF acc THEN Append(respq, [k |-> "MSG", id |-> m.id, tok |-> 0]) ELSE respq
+             /\ s' = IF acc /\ ~DevSingleKeySlot /\ m.tok = s.next
+                     THEN [cur |-> s.next, prev |-> s.cur, next |-> 0, n |-> s.nn, pn |-> s.n, nn |-> 0] ELSE s
+             /\ respq' = IF acc THEN Append(respq, [k |-> "MSG", id |-> m.id, tok |-> 0, n |-> 0]) ELSE respq
              /\ UNCHANGED issued
              /\ evt' = E("Deliver", "server", m, acc)
   /\ UNCHANGED <<c, s2c, nSent, nRenew>>
@@ -88,20 +100,23 @@ ServerRecv ==
 ServerWrite ==
   /\ respq # <<>>
   /\ LET r == Head(respq)
-         m == IF r.k = "OPNR" THEN r ELSE [k |-> "MSG", id |-> r.id, tok |-> s.cur]
+         m == IF r.k = "OPNR" THEN r ELSE [k |-> "MSG", id |-> r.id, tok |-> s.cur, n |-> s.n]
      IN /\ s2c' = Append(s2c, m) /\ respq' = Tail(respq)
         /\ evt' = E("Secure", "server", m, TRUE)
   /\ UNCHANGED <<c, s, c2s, nSent, nRenew, issued>>
 
 \* --- client transport task ---------------------------------------------------
-ClientAccepts(m) == m.k = "MSG" /\ (m.tok = c.cur \/ (~DevSingleKeySlot /\ m.tok = c.prev /\ m.tok # 0))
+ClientAccepts(m) ==
+  /\ m.k = "MSG"
+  /\ \/ (m.tok = c.cur /\ m.n = c.n)
+     \/ (~DevSingleKeySlot /\ m.tok = c.prev /\ m.n = c.pn /\ m.tok # 0)
 ClientRecv ==
   /\ s2c # <<>>
   /\ LET m == Head(s2c) IN
      /\ s2c' = Tail(s2c)
      /\ IF m.k = "OPNR"
         THEN /\ c' = IF DevSingleKeySlot THEN [c EXCEPT !.got = m.tok]
-                     ELSE [cur |-> m.tok, prev |-> c.cur, pend |-> c.pend, got |-> m.tok]
+                     ELSE [cur |-> m.tok, prev |-> c.cur, pend |-> c.pend, got |-> m.tok, gen |-> c.gen, n |-> c.gen, pn |-> c.n]
              /\ evt' = E("Deliver", "client", m, TRUE)
         ELSE /\ UNCHANGED c /\ evt' = E("Deliver", "client", m, ClientAccepts(m))
   /\ UNCHANGED <<s, c2s, respq, nSent, nRenew, issued>>
@@ -109,7 +124,7 @@ ClientRecv ==
 \* --- adversary: a chunk secured with keys of a token that was never issued ------
 Forge(side) ==
   /\ AllowForged
-  /\ LET m == [k |-> "FORGED", id |-> 0, tok |-> 99] IN
+  /\ LET m == [k |-> "FORGED", id |-> 0, tok |-> 99, n |-> 0] IN
      evt' = E("Deliver", side, m, FALSE)
   /\ UNCHANGED <<c, s, c2s, s2c, respq, nSent, nRenew, issued>>
 
